@@ -112,20 +112,10 @@ def run(ctx) -> None:
                   "(no dominating .copy()): displacements accumulate over configurations", key_detail="fresh")
 
     # ---------------- R-SEEDPART
-    fpa = repo.method(PH, "FrozenPhonons", "_from_partitioned_args_func")
-    ctors = [c for c in walk_no_nested(fpa.node) if isinstance(c, ast.Call) and dotted(c.func) in ("cls", "FrozenPhonons")]
-    ctx.require(len(ctors) == 1, "FrozenPhonons._from_partitioned_args_func: constructor call not found")
-    kws = {k.arg: k.value for k in ctors[0].keywords if k.arg}
-    seedv = kws.get("seed")
-    okp = (isinstance(seedv, ast.Name) and "num_configs" in kws and norm_text(kws["num_configs"]) == f"len({seedv.id})")
-    if okp:
-        dfp = DataFlow(fpa.node)
-        sl = dfp.backward_slice(dfp.cfg.node_of(_stmt_of(fpa.node, ctors[0])).idx, seedv)
-        okp = "args" in sl.params
-    ctx.check(okp, "R-SEEDPART", f"{fpa.qualname}:rebuild", fpa.loc(ctors[0]),
-              "block rebuilt with seed=<block seeds>, num_configs=len(<block seeds>)",
-              f"block rebuilt by {norm_text(ctors[0])[:90]}: seed/num_configs do not come from the block's own seeds",
-              key_detail="rebuild")
+    from ..rules import seedrebuild
+
+    seedrebuild.check(ctx, repo.method(PH, "FrozenPhonons", "_from_partitioned_args_func"), ("cls", "FrozenPhonons"),
+                      "seed", "num_configs", rule="R-SEEDPART")
     sameslice.check(ctx, repo.method(PH, "FrozenPhonons", "_partition_args"), rule="R-SEEDPART")
     sameslice.check(ctx, repo.method(PH, "AtomsEnsemble", "_partition_args"), rule="R-SEEDPART")
 
@@ -501,25 +491,28 @@ def run(ctx) -> None:  # noqa: F811
 
 def _crystal_seedpart(ctx, repo) -> None:
     IAM = "abtem.potentials.iam"
-    fpa = repo.method(IAM, "CrystalPotential", "_from_partitioned_args_func")
-    ctors = [c for c in walk_no_nested(fpa.node) if isinstance(c, ast.Call) and dotted(c.func) in ("cls", "CrystalPotential")]
-    ctx.require(len(ctors) == 1, f"{fpa.qualname}: constructor call not found")
-    kws = {k.arg: k.value for k in ctors[0].keywords if k.arg}
-    seedv, numv = kws.get("seeds"), kws.get("num_frozen_phonons")
-    dfp = DataFlow(fpa.node)
-    at = dfp.cfg.node_of(_stmt_of(fpa.node, ctors[0])).idx
-    ok = isinstance(seedv, ast.Name) and numv is not None and "args" in dfp.backward_slice(at, seedv).params
-    if ok:
-        # num_frozen_phonons is len(<the block seeds>) wherever the seeds are not None
-        vals = [numv]
-        if isinstance(numv, ast.Name):
-            vals = [d.value for d in dfp.reaching(at, numv.id)]
-        lens = [v for v in vals if isinstance(v, ast.Call) and call_name(v) == "len"]
-        others = [v for v in vals if v not in lens]
-        ok = bool(lens) and all(len(v.args) == 1 and dotted(v.args[0]) == seedv.id for v in lens) and all(
-            isinstance(v, ast.Constant) and v.value is None for v in others)
-    ctx.check(ok, "R-SEEDPART", f"{fpa.qualname}:rebuild", fpa.loc(ctors[0]),
-              "block rebuilt with seeds=<block seeds>, num_frozen_phonons=len(<block seeds>)",
-              f"block rebuilt by {norm_text(ctors[0])[:90]}: seeds/num_frozen_phonons do not come from the block's own "
-              "seeds", key_detail="rebuild")
+    from ..rules import seedrebuild
+
+    seedrebuild.check(ctx, repo.method(IAM, "CrystalPotential", "_from_partitioned_args_func"),
+                      ("cls", "CrystalPotential"), "seeds", "num_frozen_phonons", rule="R-SEEDPART")
     sameslice.check(ctx, repo.method(IAM, "CrystalPotential", "_partition_args"), rule="R-SEEDPART")
+
+
+# ---- added after seeded change C02-r4seed1: the count an ensemble mean is normalised with
+_inner_run_c02_meancount = run
+
+
+def run(ctx) -> None:  # noqa: F811
+    from ..rules import deferred, meancount
+
+    ctx.rule("R-MEANCOUNT", meancount.TEXT)
+    ctx.assume("R-MEANCOUNT: a sum over configurations is normalised in the function that accumulates it (the count "
+               "is local to that function); ensemble means formed by reduce_ensemble over a stored configuration axis "
+               "are decided by R-MEANAXES / R-PERCONFIG")
+
+    def new() -> None:
+        n = meancount.check(ctx, ctx.repo)
+        ctx.require(n >= 1, "R-MEANCOUNT: no accumulation of an ensemble mean over configurations found (the eager "
+                            "PRISM path SMatrix._eager_build_s_matrix_detect used to sum the configurations in place)")
+
+    deferred.run(ctx, new, _inner_run_c02_meancount)
